@@ -46,6 +46,14 @@ Theorem C10_every_schedule : forall t0 segs tail (k : nat) (live : nat -> bool) 
 Proof. exact filter_every_schedule. Qed.
 Print Assumptions C10_every_schedule.
 
+(* is_rtcm / filter_output transcribe rtcmfilter's writeRTCMMessages: its single continue statement is
+   guarded by  message.MessageType == utils.NonRTCMMessage  and its single Write call writes
+   message.RawData; the writers sit behind appcore's fan-out loop.  Both shapes are re-read from the
+   source on every run. *)
+Theorem C10_source_shape : filter_skips_only_nonrtcm = true /\ fanout_all_non_nil = true.
+Proof. split; reflexivity. Qed.
+Print Assumptions C10_source_shape.
+
 Example C10_example :
   let f := [211; 0; 19; 62; 208; 2; 12; 10; 88; 246; 126; 253; 63; 255; 237; 41; 121; 12; 239; 94; 128; 227; 229; 56; 76]%N in
   let segs := [Junk [36; 71]; Frame f; Junk [80]; Frame f; Junk [1]]%N in
